@@ -3,8 +3,8 @@
    Second sentence: proved conditionally on the derivation giving a different encoded key (C02_differs) — that a
    particular KDF separates two particular inputs is not a mathematical fact about MD5/SHA/Blowfish/DES (the
    all-zero DES key is a weak key: extended DES with an empty password depends only on the parity of the round
-   count); the hypothesis is explicit.  The digest-tamper statement per scheme is added with the C06
-   characterisation of well-formed strings. *)
+   count); the hypothesis is explicit.  The per-scheme digest / password / salt / cost tamper theorems are in
+   Properties/C02_tamper.v. *)
 Require Import GC.Base.Bytes GC.Codec.Types GC.Codec.Codec GC.B64.B64Model GC.Schemes.Consts GC.Schemes.Layouts
                GC.Schemes.Keys GC.Schemes.Encoders GC.Schemes.Checks GC.Schemes.CheckSound.
 
